@@ -240,6 +240,36 @@ Fixpoint nest (n : nat) (p : prog) : prog :=
   | S n' => PTry (nest n' p) [] PSkip
   end.
 
+(* The same structured semantics as a relation, one rule per way a construct can end
+   (ExnProofs.eval_iff_ref_run: it is the graph of [ref_run]).  The three rules for PTry are the
+   property's sentence "a handler runs if and only if an exception raised in its own try body was
+   not already handled by an inner block and matches its filter". *)
+Inductive eval : nat -> prog -> list event -> rres -> Prop :=
+| EvSkip : forall d, eval d PSkip [] RNormal
+| EvTick : forall d n, eval d (PTick n) [ETick n d] RNormal
+| EvSeqNormal : forall d p q t1 t2 r,
+    eval d p t1 RNormal -> eval d q t2 r -> eval d (PSeq p q) (t1 ++ t2) r
+| EvSeqRaised : forall d p q t1 k m,
+    eval d p t1 (RRaised k m) -> eval d (PSeq p q) t1 (RRaised k m)
+| EvThrow : forall d k m, eval d (PThrow k m) [] (RRaised k m)
+| EvCall : forall d p t r, eval d p t r -> eval d (PCall p) t r
+| EvTryNormal : forall d b fs h t,            (* nothing reaches this block: the handler stays out *)
+    eval (S d) b t RNormal -> eval d (PTry b fs h) t RNormal
+| EvTryHandled : forall d b fs h t1 k m t2 r, (* the body let k escape and the filter admits it *)
+    eval (S d) b t1 (RRaised k m) -> (fs = [] \/ In k fs) ->
+    eval d h t2 r -> eval d (PTry b fs h) (t1 ++ EHandler k m d :: t2) r
+| EvTryPassed : forall d b fs h t1 k m,       (* the filter does not admit k: outwards, untouched *)
+    eval (S d) b t1 (RRaised k m) -> fs <> [] -> ~ In k fs ->
+    eval d (PTry b fs h) t1 (RRaised k m).
+
+(* [chain levels p]: p wrapped in try blocks, innermost first: levels = [(fs1,h1); (fs2,h2); ..]
+   gives  try { try { p } catch (fs1) { h1 } } catch (fs2) { h2 } ... *)
+Fixpoint chain (levels : list (list nat * prog)) (p : prog) : prog :=
+  match levels with
+  | [] => p
+  | (fs, h) :: rest => chain rest (PTry p fs h)
+  end.
+
 (* the shapes of the three macros the machine encodes, as normalised token strings
    (tools/genx_exn.py emits the shapes found in include/Cello.h into Generated.v) *)
 Require Import String.
